@@ -64,8 +64,37 @@ def jOptBool : Option Bool → Json
   | some b => Json.bool b
   | none => Json.null
 
+def jUse : Option Use → Json
+  | none => Json.null
+  | some (.text s) => Json.mkObj [("text", s)]
+  | some .unset => Json.mkObj [("unset", true)]
+  | some (.flag b) => Json.mkObj [("flag", b)]
+  | some (.seconds d) => Json.mkObj [("seconds", jDec (some d))]
+  | some (.prefixes ps) => Json.mkObj [("prefixes", Json.arr (ps.map Json.str).toArray)]
+  | some .fails => Json.mkObj [("fails", true)]
+  | some .unmodelled => Json.mkObj [("unmodelled", true)]
+
+def handleFrame (j : Json) : Except String Json := do
+  let w ← pWorld j
+  let files ← (← getArr j "files").toList.mapM (·.getStr?)
+  pure (Json.mkObj [("frames", Json.arr (files.map (fun f => jFrame (w.appFrame f) (w.shortName f))).toArray),
+                    ("root", jCVal (w.get "APP_ROOT"))])
+
 def handle (j : Json) : Except String Json := do
   match (← getStr j "kind") with
+  | "use" =>
+    -- one documented setting at its use site, given in code (native value) and as DEEP_<key> text
+    let k ← getStr j "key"
+    let t ← getStr j "text"
+    let v ← pCVal (← j.getObjVal? "native")
+    let px ← getStr j "px"
+    let env ← (← pPairs j "env").mapM (fun (k, v) => do pure (k, ← v.getStr?))
+    pure (Json.mkObj [("code", jUse ((World.mk [(k, v)] env px).use k)),
+                      ("env", jUse ((World.mk [] (("DEEP_" ++ k, t) :: env) px).use k))])
+  | "frameseq" =>
+    -- configurations used one after the other in one process: each is judged on its own (the model has no state)
+    let rs ← (← getArr j "steps").toList.mapM handleFrame
+    pure (Json.mkObj [("steps", Json.arr rs.toArray)])
   | "lookup" =>
     let w ← pWorld j
     let names ← (← getArr j "names").toList.mapM (·.getStr?)
